@@ -10,7 +10,7 @@ _TXTYPES = ["Send", "Activation", "Invite", "Kill", "SubmitFlip", "AnswersHash",
 _CAP = 16 * 1024 * 1024  # KiB
 
 _floors = {
-    "inputs": (100000, 3000000), "tx_cases": (30000, 1000000), "worlds_built": 10, "world_epoch_ge1": 3,
+    "inputs": (150000, 3000000), "tx_cases": (40000, 800000), "worlds_built": 10, "world_epoch_ge1": 3,
     # non-vacuity: well-formed objects ARE accepted by the node the harness built
     "accepted:Vote": (100, 2000), "accepted:NewTx": (100, 2000), "accepted:ProposeBlock": (15, 300), "accepted:Block": (50, 1000),
     "accepted:FlipKey": (2, 40), "accepted:FlipKeysPackage": (2, 40), "accepted:FlipBody": (3, 60), "accepted:Handshake": (50, 1000),
